@@ -212,6 +212,31 @@ def parse_builder_expr(s, names, jtxt):
         return None
     return go(s)
 
+def parse_bint_literal(gtxt, jtxt):
+    """gj0BInt: when is a big-integer constant emitted as `BigInteger.valueOf(<int literal>)` (else as
+    `new BigInteger("<decimal>")`), and with which printf format does jcLiteralInteger print the number"""
+    out = {"ok": False}
+    m = re.search(r"\ngj0BInt\s*\([^)]*\)\s*\{(.*?)\n\}", gtxt, re.S)
+    if not m:
+        out["reason"] = "gj0BInt not found"; return out
+    body = m.group(1)
+    c = re.search(r"if\s*\(\s*bintLength\s*\(\s*val\s*\)\s*(<=|<)\s*(\d+)\s*&&\s*bintIsSmall\s*\(\s*val\s*\)\s*\)", body)
+    if not c:
+        out["reason"] = "switch-over condition of gj0BInt not of the form `bintLength(val) < N && bintIsSmall(val)`"; return out
+    after = body[c.end():]
+    if not re.search(r"jcId\s*\(\s*strCopy\s*\(\s*\"valueOf\"\s*\)\s*\)\s*,\s*1\s*,\s*jcLiteralInteger\s*\(\s*smallval\s*\)", after) \
+       or not re.search(r"jcLiteralString\s*\(\s*bintToString\s*\(\s*val\s*\)\s*\)", after) \
+       or not re.search(r"long\s+smallval\s*=\s*bintSmall\s*\(\s*val\s*\)", after):
+        out["reason"] = "the two emitted forms of gj0BInt are not valueOf(jcLiteralInteger(smallval)) / new BigInteger(bintToString(val))"; return out
+    f = re.search(r"\njcLiteralInteger\s*\([^)]*\)\s*\{[^}]*?strPrintf\s*\(\s*\"([^\"]*)\"\s*,\s*i\s*\)", jtxt, re.S)
+    if not f or f.group(1) not in ("%d", "%ld"):
+        out["reason"] = "jcLiteralInteger's format is not %d / %ld"; return out
+    zero = bool(re.search(r"if\s*\(\s*bintIsZero\s*\(\s*val\s*\)\s*\)\s*return[^;]*\"ZERO\"", body, re.S))
+    one = bool(re.search(r"if\s*\(\s*smallval\s*==\s*1\s*\)\s*\{?\s*return[^;]*\"ONE\"", after, re.S))
+    out.update(ok=True, strict=(c.group(1) == "<"), bound=int(c.group(2)), fmt=f.group(1), zero=zero, one=one,
+               text=re.sub(r"\s+", " ", c.group(0)))
+    return out
+
 # ----------------------------------------------------------------------------- Java side
 
 PRIM = ("boolean", "byte", "short", "char", "int", "long")
@@ -597,7 +622,7 @@ def load(src):
         except Untranslatable as e:
             d["ok"] = False; d["reason"] = str(e)
         out.append(d)
-    return {"rows": out, "methods": mt, "tmap": tmap, "ops": ops, "cls": cls, "builders": builders, "sigs": sigs}
+    return {"bintlit": parse_bint_literal(g, j), "rows": out, "methods": mt, "tmap": tmap, "ops": ops, "cls": cls, "builders": builders, "sigs": sigs}
 
 def lean_str(s):
     return '"' + (s or "").replace("\\", "\\\\").replace('"', '\\"').replace("\n", "\\n") + '"'
@@ -684,6 +709,35 @@ def emit(L):
         else:
             w("def %s %s : %s := %s" % (r["name"], ps, rt, r["lean_expr"]))
         w("")
+    B = L.get("bintlit", {"ok": False, "reason": "not parsed"})
+    w("/-! ## big-integer constants (genjava.c gj0BInt, javacode.c jcLiteralInteger) -/")
+    w("inductive BIntLit where")
+    w("  | zero                      -- `BigInteger.ZERO`")
+    w("  | one                       -- `BigInteger.ONE`")
+    w("  | valueOf (printed : Int)   -- `BigInteger.valueOf(<printed>)`: the argument is a Java `int` literal")
+    w("  | string (digits : Int)     -- `new BigInteger(\"<decimal digits>\")`")
+    w("  deriving Repr, DecidableEq")
+    w("")
+    if B["ok"]:
+        w("/-- the bound in `%s` -/" % B["text"])
+        w("def bintLitBound : Nat := %d" % B["bound"])
+        w("/-- the printf format of `jcLiteralInteger` -/")
+        w("def bintLitFormat : String := %s" % lean_str(B["fmt"]))
+        w("/-- which form `gj0BInt` emits for the constant `v` (`bintIsSmall` holds for every value this short) -/")
+        w("def bintLit (v : Int) : BIntLit :=")
+        if B["zero"]:
+            w("  if v = 0 then .zero else")
+        w("  if JSem.bintLength v %s bintLitBound then" % ("<" if B["strict"] else "≤"))
+        pr = "JSem.fmtD v" if B["fmt"] == "%d" else "JSem.fmtLD v"
+        if B["one"]:
+            w("    (if v = 1 then .one else .valueOf (%s))" % pr)
+        else:
+            w("    .valueOf (%s)" % pr)
+        w("  else .string v")
+    else:
+        w("-- gj0BInt NOT translated: %s" % B.get("reason", ""))
+        w("-- (no `bintLit`: Props/C12.lean's bint_literal_fits_int cannot be stated any more)")
+    w("")
     w("/-! ## evaluator for the driver -/")
     w("def showS {w : Nat} (x : BitVec w) : String := toString x.toInt")
     w("def showU {w : Nat} (x : BitVec w) : String := toString x.toNat")
@@ -739,6 +793,7 @@ def main(argv):
     L = load(src)
     changed = write_if_changed(out, emit(L))
     ok = sum(1 for r in L["rows"] if r["ok"])
+    print("jmap: gj0BInt %s" % ("bound %(bound)d strict=%(strict)s fmt=%(fmt)s" % L["bintlit"] if L["bintlit"]["ok"] else "NOT translated: " + L["bintlit"].get("reason", "")))
     print("jmap: %d rows, %d translated, %d listed as untranslated; %d foamj methods translated; %s %s" % (
         len(L["rows"]), ok, len(L["rows"]) - ok, sum(1 for v in L["methods"].values() if v["ok"]),
         "wrote" if changed else "unchanged", out))
